@@ -3,6 +3,7 @@ CONSTANTS
   Keys = {"a", "b"}
   Vals = {"1", "2"}
   MaxOps = 4
+  InitRecomputes = FALSE
   FinalInRoot = FALSE
-INVARIANTS EqualHistoriesEqualRoots
+INVARIANTS EqualHistoriesEqualRoots InitIdempotent
 CHECK_DEADLOCK FALSE
